@@ -2733,7 +2733,11 @@ class Huber(Functional):
                 else:
                     norm = x.ufuncs.absolute()
 
-                grad = x / functional.gamma
+                if functional.gamma > 0:
+                    grad = x / functional.gamma
+                else:
+                    # All entries are overwritten with ``x / |x|`` below
+                    grad = x.copy()
 
                 # Index plain arrays: boolean-mask indexing of elements does
                 # not work on array-weighted spaces
